@@ -208,6 +208,7 @@ func runC16(p *core.Program, r *core.Report) {
 	importQueueRules(p, r, "C16.queue")
 	r.Rule("C16.zip-complete", "the gzip stream handed back by DoZip is complete: the compressor's Close() has run before its buffer is read", 1)
 	gzipClosedBeforeRead(p, r, "C16.zip-complete", []string{"util/compressutil"})
+	noSilentTruncation(p, r, "C16.zip-complete", []string{"util/compressutil"})
 	c16Defaults(p, r)
 	for _, name := range []string{"Append", "sendAndClear", "SendDirect", "run"} {
 		if zipMethod(p, name) == nil {
